@@ -1,29 +1,32 @@
 package main
 
-// Stage `acctrace` — "deactivated accounts can do nothing" under overlapping account updates.
+// Stage `acctrace` — "deactivated accounts can do nothing" under overlapping account updates, down to the
+// compare-and-swap of the store.
 //
-// GetOrUpdateAccount works on the *acme.Account that lookupJWK loaded (db.GetAccount) and hands it
-// to db.UpdateAccount, which re-reads the record and copies Contact AND Status from the handler's
-// copy onto the fresh record. Before commit 48b7457 a contact update that had loaded the account
-// before a deactivation was stored wrote Status=valid back (schedules ABAB, BAAB: both answered 200,
-// account valid again); since then UpdateAccount refuses (401) when the stored record is deactivated
-// and the incoming status is not.
+// GetOrUpdateAccount works on the *acme.Account that lookupJWK loaded (db.GetAccount) and hands it to
+// db.UpdateAccount, which re-reads the record (getDBAccount), refuses (401, commit 48b7457) when the record it
+// read is deactivated and the incoming status is not, and then save() compare-and-swaps the new encoding against
+// the encoding it read: "changed since last read" (500) when another request wrote in between. Without that swap
+// a contact update that read the record while it was valid would write `valid` back over a deactivation stored
+// after its read.
 //
-// Two requests of one account, A = {"status":"deactivated"}, B = {"contact":[…]}, each two
-// store-visible steps [GetAccount (lookupJWK), UpdateAccount], interleaved by a parking acme.DB
-// wrapper; all 6 interleavings. Expected: exactly the table of the Lean theorem
-// account_update_interleavings (stored status, answer to A, answer to B).
+// Two requests of one account, A = {"status":"deactivated"}, B = {"contact":[…]}, each THREE store-visible steps
+// on the accounts table — Get (lookupJWK), Get (UpdateAccount), CmpAndSwap (save) — interleaved by a parking
+// nosql.DB wrapper below the real acme/db/nosql; all 20 interleavings, then random words with incomplete prefixes.
+// Expected: the model (casRun2, driver drv_c12; table theorem cas_update_interleavings): stored status, answer to A,
+// answer to B.
 
 import (
+	"bytes"
 	"context"
 	"fmt"
 
-	"github.com/smallstep/certificates/acme"
+	"github.com/smallstep/nosql"
+	"github.com/smallstep/nosql/database"
+
 	env "verif/harness/cmd/c12/acmeenv"
 	c "verif/harness/common"
 )
-
-type raceKey struct{}
 
 type raceThread struct {
 	turn, parked chan struct{}
@@ -31,99 +34,144 @@ type raceThread struct {
 	class        string
 }
 
-type raceDB struct {
-	acme.DB
+// raceStore parks the request that is running (the scheduler runs one request at a time, so it knows which) before
+// every read and every compare-and-swap of the accounts table.
+type raceStore struct {
+	nosql.DB
 	threads map[int]*raceThread
+	current int
 }
 
-func (g *raceDB) gate(ctx context.Context) {
-	id, ok := ctx.Value(raceKey{}).(int)
-	if !ok || g.threads == nil {
+var accountsTable = []byte("acme_accounts")
+
+func (g *raceStore) gate(bucket []byte) {
+	if g.threads == nil || !bytes.Equal(bucket, accountsTable) {
 		return
 	}
-	if t := g.threads[id]; t != nil {
+	if t := g.threads[g.current]; t != nil {
 		t.parked <- struct{}{}
 		<-t.turn
 	}
 }
 
-func (g *raceDB) GetAccount(ctx context.Context, id string) (*acme.Account, error) {
-	g.gate(ctx)
-	return g.DB.GetAccount(ctx, id)
+func (g *raceStore) Get(bucket, key []byte) ([]byte, error) {
+	g.gate(bucket)
+	return g.DB.Get(bucket, key)
 }
 
-func (g *raceDB) UpdateAccount(ctx context.Context, acc *acme.Account) error {
-	g.gate(ctx)
-	return g.DB.UpdateAccount(ctx, acc)
+func (g *raceStore) CmpAndSwap(bucket, key, old, nu []byte) ([]byte, bool, error) {
+	g.gate(bucket)
+	return g.DB.CmpAndSwap(bucket, key, old, nu)
 }
 
-func (w *world) acctRace(o *c.Out) {
+var _ database.DB = (*raceStore)(nil)
+
+func allWords(na, nb int) []string {
+	if na == 0 && nb == 0 {
+		return []string{""}
+	}
+	var out []string
+	if na > 0 {
+		for _, w := range allWords(na-1, nb) {
+			out = append(out, "A"+w)
+		}
+	}
+	if nb > 0 {
+		for _, w := range allWords(na, nb-1) {
+			out = append(out, "B"+w)
+		}
+	}
+	return out
+}
+
+func (w *world) acctRaceOne(o *c.Out, sched string) {
 	ctx := context.Background()
 	e := w.e
-	for _, sched := range []string{"AABB", "ABAB", "ABBA", "BAAB", "BABA", "BBAA"} {
-		line := fmt.Sprintf("acctrace v=2 sched=%s case=x7b7d", sched)
-		a, err := e.NewAccount("p0", env.NewKey("es256", 0))
-		if err != nil {
-			o.Case(line, "setup-failed\tdeactivated")
-			continue
+	line := fmt.Sprintf("acctrace v=2 sched=%s case=x7b7d", sched)
+	a, err := e.NewAccount("p0", env.NewKey("es256", 0))
+	if err != nil {
+		return
+	}
+	p := env.Path("p0", "account", a.ID)
+	bodies := [][]byte{
+		e.KidBody(a, "p0", p, []byte(`{"status":"deactivated"}`)),
+		e.KidBody(a, "p0", p, []byte(fmt.Sprintf(`{"contact":["mailto:late-%s@example.test"]}`, a.ID))),
+	}
+	ths := map[int]*raceThread{}
+	for i := range bodies {
+		ths[i] = &raceThread{turn: make(chan struct{}), parked: make(chan struct{})}
+	}
+	w.race.threads = ths
+	// one request runs at a time: started one after the other, each up to its first store step
+	for i, b := range bodies {
+		w.race.current = i
+		go func(b []byte, t *raceThread) {
+			rec := e.DoCtx(ctx, "POST", p, "application/jose+json", b)
+			t.class = env.Class(rec)
+			t.done = true
+			t.parked <- struct{}{}
+		}(b, ths[i])
+		<-ths[i].parked
+	}
+	move := func(i int) {
+		t := ths[i]
+		if t.done {
+			return
 		}
-		p := env.Path("p0", "account", a.ID)
-		bodies := [][]byte{
-			e.KidBody(a, "p0", p, []byte(`{"status":"deactivated"}`)),
-			e.KidBody(a, "p0", p, []byte(`{"contact":["mailto:late@example.test"]}`)),
+		w.race.current = i
+		t.turn <- struct{}{}
+		<-t.parked
+	}
+	for _, ch := range sched {
+		move(int(ch - 'A'))
+	}
+	// what the schedule left unfinished is observed as it is, then drained
+	cls := func(i int) string {
+		if ths[i].done {
+			return ths[i].class
 		}
-		ths := map[int]*raceThread{}
-		for i := range bodies {
-			ths[i] = &raceThread{turn: make(chan struct{}), parked: make(chan struct{})}
+		return "-"
+	}
+	w.race.threads = nil
+	st := "?"
+	if acc, err := e.RealDB.GetAccount(ctx, a.ID); err == nil {
+		st = string(acc.Status)
+	}
+	w.race.threads = ths
+	ca, cb := cls(0), cls(1)
+	for i := range bodies {
+		for !ths[i].done {
+			move(i)
 		}
-		w.race.threads = ths
-		for i, b := range bodies {
-			go func(i int, b []byte, t *raceThread) {
-				rec := e.DoCtx(context.WithValue(ctx, raceKey{}, i), "POST", p, "application/jose+json", b)
-				t.class = env.Class(rec)
-				t.done = true
-				t.parked <- struct{}{}
-			}(i, b, ths[i])
-		}
-		for i := range bodies {
-			<-ths[i].parked
-		}
-		for _, ch := range sched {
-			t := ths[int(ch-'A')]
-			if t.done {
-				continue
-			}
-			t.turn <- struct{}{}
-			<-t.parked
-		}
-		for i := range bodies {
-			for !ths[i].done {
-				ths[i].turn <- struct{}{}
-				<-ths[i].parked
-			}
-		}
-		w.race.threads = nil
-		st := "?"
-		if acc, err := e.RealDB.GetAccount(ctx, a.ID); err == nil {
-			st = string(acc.Status)
-		}
-		impl := "deactivated"
-		if ths[0].class == "200" && st == "valid" {
-			impl = "reactivated"
-		} else if st != "deactivated" {
-			impl = "final=" + st
-		}
-		impl += fmt.Sprintf(" deact=%s contact=%s", ths[0].class, ths[1].class)
-		// account_update_interleavings: the deactivation answered 200 sticks; the contact update
-		// is served if its UpdateAccount comes before the deactivation's, refused (401) otherwise
-		exp := map[string]string{
-			"AABB": "deactivated deact=200 contact=401:unauthorized",
-			"ABAB": "deactivated deact=200 contact=401:unauthorized",
-			"ABBA": "deactivated deact=200 contact=200",
-			"BAAB": "deactivated deact=200 contact=401:unauthorized",
-			"BABA": "deactivated deact=200 contact=200",
-			"BBAA": "deactivated deact=200 contact=200",
-		}[sched]
-		o.Case(line, impl+"\t"+exp)
+	}
+	w.race.threads = nil
+	// … and after every request has run to its end (A's remaining steps, then B's): a request may take more store
+	// steps than the three of the model; whatever it does with them, an acknowledged deactivation must stand
+	fin := "?"
+	if acc, err := e.RealDB.GetAccount(ctx, a.ID); err == nil {
+		fin = string(acc.Status)
+	}
+	impl := st
+	if ca == "200" && st == "valid" {
+		impl = "reactivated"
+	}
+	if ths[0].class == "200" && fin == "valid" {
+		fin = "reactivated"
+	}
+	o.Case(line, fmt.Sprintf("%s deact=%s contact=%s end=%s deact=%s contact=%s", impl, ca, cb, fin, ths[0].class, ths[1].class))
+}
+
+func (w *world) acctRace(o *c.Out, n int, r *c.Rng) {
+	if w.race == nil {
+		return
+	}
+	for _, s := range allWords(3, 3) {
+		w.acctRaceOne(o, s)
+	}
+	for i := 0; i < n; i++ {
+		// a random prefix of a random interleaving: the state in the middle of the race
+		ws := allWords(3, 3)
+		s := ws[r.Intn(len(ws))]
+		w.acctRaceOne(o, s[:r.Intn(len(s)+1)])
 	}
 }
